@@ -141,7 +141,7 @@ Definition set_item (n : node) (h : handler) : node + add_err :=
   end.
 
 (* func add(nd, route, item): [segs] are the components of [route] *)
-Fixpoint add (n : node) (segs : list string) (h : handler) : node + add_err :=
+Fixpoint add (n : node) (segs : list string) (h : handler) {struct segs} : node + add_err :=
   match segs with
   | [] => set_item n h
   | s :: rest =>
@@ -201,7 +201,7 @@ Definition last_step (n : node) (s : string) : list (handler * params) :=
   end.
 
 (* func (t *Tree) next(n, route, result): all results it can return *)
-Fixpoint outcomes (n : node) (segs : list string) : list (handler * params) :=
+Fixpoint outcomes (n : node) (segs : list string) {struct segs} : list (handler * params) :=
   match segs with
   | [] => last_step n ""
   | s :: rest =>
